@@ -7,7 +7,7 @@ CONSTANTS
   FailEnds = {"exit1_before_read", "exit1_mid_write", "exit1_after", "signal", "spawn_fails"}
   LinkEnds = {"exit0", "exit1_after", "signal", "spawn_fails"}
   MaxFail = 1
-  Devs = {"TempLeak", "LinkSpawnLeak"}
+  Devs = {}
   KeepReadEnds = TRUE
   EmitCases = FALSE
 PROPERTIES Live_Exits
